@@ -8,6 +8,7 @@ SHARDS = {"quick": 8, "thorough": 16}
 TIMEOUT = {"quick": 1200, "thorough": 7200}
 REQUIRED = {"A.encode": 1500, "A.decode_back": 500, "B.reject_constructed": 300, "C.syndromes": 2201,
             "C.linearity": 200, "C.weight_le4": 4, "D.substitution": 10000, "D.differential": 3000}
+ANCHORS = ['bech32:encode', 'bech32:decode', 'bech32:bech32_polymod', 'bech32:convertbits', 'bech32:bech32_decode', 'helper:bech32_decode_address']
 RULE = ("A: ALL (version, length) pairs in 0..17 x 0..42 (774, exhaustive) x HRPs {bc, tb, bcrt, random 1..83 chars} with "
         "random programs; B: strings built by the reference encoder that are wrong in exactly one way but carry a valid "
         "checksum; C: the repo's real bech32_polymod evaluated on ALL 2201 single-symbol errors of the longest emit-able data "
